@@ -14,13 +14,16 @@ from mako.ext.extract import MessageExtractor
 class BabelMakoExtractor(MessageExtractor):
     def __init__(self, keywords, comment_tags, options):
         self.keywords = keywords
-        self.options = options
         self.config = {
             "comment-tags": " ".join(comment_tags),
             "encoding": options.get(
                 "input_encoding", options.get("encoding", None)
             ),
         }
+        # the Python fragments are handed to Babel in that encoding
+        if self.config["encoding"]:
+            options = dict(options, encoding=self.config["encoding"])
+        self.options = options
         super().__init__()
 
     def __call__(self, fileobj):
